@@ -145,6 +145,10 @@ func execC20(caseText string) string {
 			if len(ts) == 3 {
 				return c20execLzArr(ts[1], ts[2])
 			}
+		case "latefile":
+			if len(ts) == 2 {
+				return c20execLateFile(ts[1] == "rev")
+			}
 		case "missing":
 			if len(ts) == 2 {
 				return c20execFile(ts[1] == "rev", nil, true)
@@ -575,10 +579,11 @@ func c20execLazy(mode, src string) string {
 		data = m
 		mS = c20hex(m)
 	}
-	var l2 lazy.Lazy[any]
+	// the targets are not fresh (a decode loop re-using one variable): whatever they held before must be gone
+	l2 := lazy.Just[any]("stale")
 	um := "ok"
 	if field {
-		var h c20Holder
+		h := c20Holder{A: 9, L: lazy.Just[any]("stale"), Z: "q"}
 		if err := json.Unmarshal(data, &h); err != nil {
 			um = "err"
 		}
@@ -698,6 +703,36 @@ type c20Pulled struct {
 	b []byte
 	n int
 	h uint64
+}
+
+// c20execLateFile: one stream value materialised while its file does not exist yet, then - the file created - completely
+// and with an early stop; afterwards no handle on the file may be open in this process (Linux: /proc/self/fd).
+func c20execLateFile(rev bool) string {
+	dir, err := os.MkdirTemp("", "c20-")
+	if err != nil {
+		return "err mktemp"
+	}
+	defer os.RemoveAll(dir)
+	p := filepath.Join(dir, "late.txt")
+	s := file.StreamFromFile(p, rev)
+	ctx := context.Background()
+	r1, err1 := s.Collect(ctx)
+	if err := os.WriteFile(p, []byte("alpha\nbeta\ngamma\n"), 0o600); err != nil {
+		return "err write"
+	}
+	_, err2 := s.Collect(ctx)
+	_, err3 := s.Limit(1).Collect(ctx)
+	fds := 0
+	if ents, err := os.ReadDir("/proc/self/fd"); err == nil {
+		for _, e := range ents {
+			if t, err := os.Readlink("/proc/self/fd/" + e.Name()); err == nil && t == p {
+				fds++
+			}
+		}
+	} else {
+		return "err procfs"
+	}
+	return fmt.Sprintf("first=%d/%v later-errors=%v/%v fds=%d", len(r1), err1 != nil, err2 != nil, err3 != nil, fds)
 }
 
 // c20execFile writes the content to a fresh temp dir, streams the file, and only after the WHOLE stream was
@@ -1441,6 +1476,8 @@ func c20allVariants(c *Ctx, lens []int) {
 
 func genC20Files(c *Ctx) {
 	r := c.Rng
+	c.Case(true, "latefile fwd")
+	c.Case(true, "latefile rev")
 	c.Case(false, "missing fwd")
 	c.Case(false, "missing rev")
 	// exhaustive small scope, both directions: every file made of up to 6 (thorough 9) units out of {"a", "\n", "\r\n"},
